@@ -183,3 +183,20 @@ if __name__ == "__main__":
         t = time.time()
         d = ensure(c)
         print(c, d, f"{time.time() - t:.1f}s")
+
+
+def ensure_zoo(cfg="default", repo=REPO, log=sys.stderr):
+    """Facts of the verif-owned zoo crate (/verif/zoo, path-dependency on `repo`) under configuration `cfg`."""
+    tag = "zoo-" if repo == REPO else "zooscratch-"
+    d = os.path.join(BUILD, tag.rstrip("-"))
+    os.makedirs(os.path.join(d, "src"), exist_ok=True)
+    with open(os.path.join(VERIF, "zoo", "Cargo.toml.in")) as f:
+        toml = f.read().replace("@REPO@", repo)
+    cur = open(os.path.join(d, "Cargo.toml")).read() if os.path.exists(os.path.join(d, "Cargo.toml")) else ""
+    if cur != toml:
+        with open(os.path.join(d, "Cargo.toml"), "w") as f:
+            f.write(toml)
+    shutil.copy(os.path.join(VERIF, "zoo", "src", "lib.rs"), os.path.join(d, "src", "lib.rs"))
+    if not os.path.exists(os.path.join(d, "Cargo.lock")):
+        shutil.copy(os.path.join(repo, "Cargo.lock"), os.path.join(d, "Cargo.lock"))
+    return ensure(cfg, repo=repo, log=log, manifest_dir=d, crates=("cucumber_verif_zoo",), tag=tag)
